@@ -32,6 +32,7 @@ EXPLANATION = (
     "division/remainder, Vec::remove/insert/split_at.., RefCell borrows) in a mech_syntax body reachable from parse() or from the report renderer is dominated on the MIR CFG by a guard of a closed "
     "idiom list (with a no-intervening-mutation check) or is individually reviewed in reviewed_safe.json under a name-free provenance key; a new site has a new key and is reported. Not decided: "
     "Add/Mul overflow (needs > 2^64 graphemes), assert!/debug_assert! failures, panics inside std/nom bodies, stack depth, and whether a reviewed reason still holds after the code around it changes."
+    ' (R14) error ranges are measured in the coordinates of the input: in every parser function that re-enters the parser on a nested ParseString (a substring whose cursor restarts at 1:1) no location derived from the nested string flows into a SourceRange literal or a ParseError (provenance of the positions, not their values).'
 )
 IMPURE = re.compile(r"^std::fs::|^std::env::|^std::net::|^std::process::|^std::time::|^rand::|^getrandom::|^std::thread::|^std::io::stdin|^std::os::|^tokio::|^reqwest::")
 
@@ -203,6 +204,7 @@ def run(F, rep, tier):
     from rules.c09_rows import run_r12
     run_r12(F, rep, tier)
     from rules.c09_panics import run_r13; run_r13(F, rep, tier)
+    from rules import c09_nested; c09_nested.run(F, rep)   # R14: locations of a nested ParseString never reach an error range
 
 
 def run_r3(syn_items, rep):
